@@ -252,6 +252,11 @@ type windowTimeBuffer struct {
 
 // Insert a single point into the buffer.
 func (b *windowTimeBuffer) insert(p edge.PointMessage) {
+	if b.size == 0 {
+		// An empty buffer starts over, otherwise start == stop is taken for a wrapped buffer.
+		b.start = 0
+		b.stop = 0
+	}
 	if b.size == cap(b.window) {
 		//Increase our buffer
 		c := 2 * (b.size + 1)
